@@ -1,9 +1,20 @@
 (* C06/Proofs.v -- gathers the proof files of property C06 (Limits.v: escape table, limits,
-   rejection of unsupported input, memoisation; Agree.v: the model of the implementation against
-   the transcription of the specification) and adds the refutations of conformance for the code
+   rejection of unsupported input, memoisation; Agree*.v: the model of the implementation against
+   the transcription of the specification; Closure*.v: step 5.2.1 is unobservable) and adds the refutations of conformance for the code
    before the two repairs of build/proposed/C06.diff. *)
-From Sophia.C06 Require Export Model Limits Agree1 Agree2 Agree.
+From Sophia.C06 Require Export Model Limits Agree1 Agree2 Agree Closure1 Closure ClosureCex.
 From Sophia.C05 Require Export Reader.
+
+(* conformance, all limits: whenever the (repaired) implementation returns a result, it is the
+   canonical document and the issued identifiers map that RDFC-1.0 defines *)
+Theorem conformance : forall H fuel df pl d bytes issued,
+  Forall wf_quad d ->
+  normalize_with H (mkVar true true) fuel df pl d = Ok (bytes, issued) ->
+  spec_model H heap_perms label_order true d fuel = SpOk (bytes, issued).
+Proof.
+  intros H fuel df pl d bytes issued W E.
+  apply impl_ok_is_rdfc10; [exact W|]. eapply run_limited_ok; exact E.
+Qed.
 
 (* does the canonical document of variant [v] differ from the specification's? *)
 Definition differs_from_spec (v : variant) (H : str -> str) (d : list quad) (fuel : nat) : bool :=
